@@ -187,8 +187,32 @@ func init() {
 		if e1 != nil || e2 != nil {
 			return // a stream that refuses or panics on late use emits nothing unprotected
 		}
-		if len(t1) > 0 && bytes.Equal(t1, t2) {
-			fs = append(fs, Failure{Kind: "oracle", Key: "late-blocks-not-under-fresh-secrets", Desc: fmt.Sprintf("%s, operations %s: the %d bytes emitted after the first Close are IDENTICAL in two messages made with different randomness: they are not protected by the message's fresh key", c.A["kind"], c.A["ops"], len(t1))})
+		// the payload ciphertexts (the last byte string of every packet) of the late packets of the two messages
+		lateCts := func(tail []byte) (out [][]byte) {
+			objs, ok := splitObjects(tail)
+			if !ok {
+				return nil
+			}
+			for _, o := range objs {
+				n, _, err := mpParse(o)
+				if err != nil || n.Kind != mpArr {
+					continue
+				}
+				for i := len(n.Arr) - 1; i >= 0; i-- {
+					if n.Arr[i].Kind == mpBin && len(n.Arr[i].Bytes) > 16 {
+						out = append(out, n.Arr[i].Bytes)
+						break
+					}
+				}
+			}
+			return
+		}
+		c1, c2 := lateCts(t1), lateCts(t2)
+		for i := range c1 {
+			if i < len(c2) && bytes.Equal(c1[i], c2[i]) {
+				fs = append(fs, Failure{Kind: "oracle", Key: "late-blocks-not-under-fresh-secrets", Desc: fmt.Sprintf("%s, operations %s: late packet %d carries the SAME %d-byte ciphertext in two messages made with different randomness: it is not protected by the message's fresh key", c.A["kind"], c.A["ops"], i, len(c1[i]))})
+				break
+			}
 		}
 		return
 	}}
